@@ -121,6 +121,12 @@ class EarliestStartTimeObserver(FeatureObserver):
         super().__init__(
             dispatcher, feature_types=feature_types, subscribe=subscribe
         )
+        # The cumulative sums above describe an empty schedule and are
+        # float32 sums. Recompute them from the dispatcher (exactly as
+        # ``reset`` and ``update`` do), so that an observer created while
+        # operations are already scheduled is right too.
+        self._update_earliest_start_times()
+        self.initialize_features()
 
     def update(self, scheduled_operation: ScheduledOperation):
         """Recomputes the earliest start times and calls the
